@@ -18,8 +18,10 @@ import (
 
 	"github.com/cloudflare/circl/blindsign/blindrsa"
 	pbrsa "github.com/cloudflare/circl/blindsign/blindrsa/partiallyblindrsa"
+	"github.com/cloudflare/circl/dh/curve4q"
 	"github.com/cloudflare/circl/dh/x25519"
 	"github.com/cloudflare/circl/ecc/bls12381"
+	"github.com/cloudflare/circl/ecc/fourq"
 	"github.com/cloudflare/circl/ecc/goldilocks"
 	"github.com/cloudflare/circl/group"
 	"github.com/cloudflare/circl/hpke"
@@ -488,6 +490,41 @@ func kinds(seed int64) []kind {
 					return must(Q.MarshalBinary())
 				}
 				return must(P.MarshalBinary())
+			}},
+		}
+	}})
+	// ---- FourQ: one encoded point / one peer public key read by all goroutines
+	ks = append(ks, kind{"fourq.decode(shared input)", func(round int) []namedCall {
+		var sk, peerSk, peerPk curve4q.Key
+		for try := 0; ; try++ { // a public key whose sign bit is set
+			copy(peerSk[:], seedOf(round, 11+try, 32))
+			curve4q.KeyGen(&peerPk, &peerSk)
+			if peerPk[31]>>7 == 1 {
+				break
+			}
+		}
+		copy(sk[:], seedOf(round, 5, 32))
+		enc := [32]byte(peerPk)
+		return []namedCall{
+			{"Point.Unmarshal", func(int) []byte {
+				var P fourq.Point
+				var out [32]byte
+				for i := 0; i < 200; i++ {
+					if !P.Unmarshal(&enc) {
+						return []byte("refused")
+					}
+				}
+				P.Marshal(&out)
+				return out[:]
+			}},
+			{"curve4q.Shared", func(int) []byte {
+				var ss curve4q.Key
+				for i := 0; i < 20; i++ {
+					if !curve4q.Shared(&ss, &sk, &peerPk) {
+						return []byte("refused")
+					}
+				}
+				return ss[:]
 			}},
 		}
 	}})
